@@ -36,6 +36,9 @@ func checkC03(r *Report, p *Program) {
 	// exactly the claimed objects are what the hook is shown (shared with C04)
 	claimKeepTable(r, p, "R03.12")
 	namespaceDefaulted(r, p, "R03.13")
+	gvkFromDeclaredVersion(r, p, "R03.14")
+	// the children are listed from informers that stay alive while subscribed to (shared with C18)
+	r18_2(r, p)
 	// which children are claimed (and so shown to the hook) is decided by makeSelector: generated ⇒ controller-uid only (shared with C04)
 	r04_4(r, p)
 }
@@ -528,5 +531,37 @@ func namespaceDefaulted(r *Report, p *Program, rule string) {
 			ok, why = false, "no child is kept"
 		}
 		r.Check(rule, FK(f), p.Pos(f.Pos()), ok, "kept ⇒ has a namespace or got the parent's", why)
+	}
+}
+
+// gvkFromDeclaredVersion: the group/version of a resource's kind (the key of the hook's children map and of the
+// observed maps) is the one of the apiVersion the resource is published and declared under — GroupVersionKind,
+// GroupVersionResource and GroupVersion all derive from APIResource.APIVersion, the field Get() looks resources up by.
+func gvkFromDeclaredVersion(r *Report, p *Program, rule string) {
+	r.Rule(rule, "discovery.APIResource: GroupVersionKind() and GroupVersionResource() are GroupVersion().With…, and GroupVersion() parses the entry's APIVersion (the apiVersion a controller declares the resource under)")
+	r.Floor(rule, 3)
+	for _, m := range []string{"GroupVersionKind", "GroupVersionResource"} {
+		f := fn(r, p, rule, "dynamic/discovery.APIResource."+m)
+		if f == nil {
+			continue
+		}
+		ok := true
+		for _, b := range f.Blocks {
+			if rt, isR := b.Instrs[len(b.Instrs)-1].(*ssa.Return); isR {
+				if !engine.MustDependOnCall(engine.RetVal(rt, 0), func(k string) bool { return strings.HasSuffix(k, "discovery.APIResource.GroupVersion") }, func(k string) bool { return strings.Contains(k, "schema.GroupVersion.With") }) {
+					ok = false
+				}
+			}
+		}
+		r.Check(rule, FK(f), p.Pos(f.Pos()), ok, "derives from GroupVersion()", "the "+m+" of a resource is not built from GroupVersion() (the declared apiVersion): an entry whose own group/version fields differ from the list it is published in keys the children map under an undeclared type")
+	}
+	if f := fn(r, p, rule, "dynamic/discovery.APIResource.GroupVersion"); f != nil {
+		ok := false
+		for _, cs := range callsTo(f, false, "schema.ParseGroupVersion") {
+			if strings.HasSuffix(E(cs.Common().Args[0]), ".APIVersion") {
+				ok = true
+			}
+		}
+		r.Check(rule, FK(f), p.Pos(f.Pos()), ok, "parses the entry's APIVersion", "GroupVersion() does not parse the entry's APIVersion")
 	}
 }
